@@ -25,9 +25,11 @@ type impFn struct {
 	bigUninit  map[string]bool // … whose contents have not been set yet: may not be read
 	seenStmt   bool            // a statement other than an entry `if … { panic }` has been translated
 	inAddr     bool            // the composite literal being translated is the operand of &
+	bigLocal   map[string]bool // `var x big.Int` locals (values owned by the function)
 	evRecv     bool            // the "receiver" is the event list of a callback parameter
 	fuels      []string        // explicit fuel parameters (loops without a recognised counting pattern)
 	usesNumCPU bool
+	inLoopNow  bool   // the statement being translated is inside a loop body
 	recv       string // receiver variable ("" = none); passed and returned by value
 	results    []*ity
 	scopes     []map[string]*ity
@@ -65,7 +67,7 @@ var leanReserved = map[string]bool{"end": true, "from": true, "at": true, "show"
 	"some": true, "none": true, "len": true, "copy": true, "index": true, "deref": true, "makeBytes": true, "bytesOfString": true, "numCPU": true, "fuel_": true, "shl64": true, "uintOfInt": true, "min": true, "max": true, "hSize": true, "hBlockSize": true, "copyAt": true, "setAt": true, "byteOfInt": true, "mul": true, "one": true, "inv": true, "F": true}
 
 func lname(n string) string {
-	if leanReserved[n] {
+	if leanReserved[n] || impExtraReserved[n] {
 		return n + "'"
 	}
 	return n
@@ -91,6 +93,9 @@ func (f *impFn) declare(at ast.Node, n string, t *ity) {
 	}
 	if f.lookup(n) != nil {
 		f.p.die(at, "declaration of %s shadows / repeats a live variable (outside the subset)", n)
+	}
+	if f.p.tg.digest && digestReserved[n] {
+		f.p.die(at, "the variable %s has the name of a parameter of the generated defs", n)
 	}
 	f.scopes[len(f.scopes)-1][n] = t
 	f.killGuards(n) // a guard recorded for an earlier variable of the same name (out of scope by now) says nothing about this one
@@ -170,7 +175,7 @@ func (f *impFn) rhsNonNil(e ast.Expr) (bool, bool) {
 }
 
 // call of a method translated before, on the receiver: Lean text; entry conditions are checked here
-func (f *impFn) methodCall(v *ast.CallExpr, name string, m *impMeth, c *ictx) string {
+func (f *impFn) recvMethodCall(v *ast.CallExpr, name string, m *impMeth, c *ictx) string {
 	p := f.p
 	if len(m.params) != len(v.Args) || v.Ellipsis.IsValid() {
 		p.die(v, "call of %s: arity", name)
@@ -244,6 +249,11 @@ func nilTests(e ast.Expr, op token.Token, cmp token.Token, out *[]string) {
 
 func (f *impFn) expr(e ast.Expr, want *ity, c *ictx) (string, *ity) {
 	p := f.p
+	if p.tg.digest {
+		if s, t, ok := f.digestExpr(e, want, c); ok {
+			return s, t
+		}
+	}
 	switch v := e.(type) {
 	case *ast.ParenExpr:
 		return f.expr(v.X, want, c)
@@ -322,6 +332,10 @@ func (f *impFn) expr(e ast.Expr, want *ity, c *ictx) (string, *ity) {
 		p.die(e, "no field %s", v.Sel.Name)
 	case *ast.IndexExpr:
 		xs, xt := f.expr(v.X, nil, c)
+		if xt.k == "array" && xt.elem.k == "grp" {
+			_, get, _ := f.grpLval(v, c)
+			return get, xt.elem
+		}
 		if xt.k != "slice" {
 			p.die(e, "index expression on %v (map reads only as `v, ok := m[k]`)", xt)
 		}
@@ -524,8 +538,22 @@ func (f *impFn) binary(v *ast.BinaryExpr, want *ity, c *ictx) (string, *ity) {
 			p.die(v, "^ on %v, %v (only bytes)", xt, yt)
 		}
 		return parenImp(xs) + " ^^^ " + parenImp(ys), tyByte
+	case token.AND, token.OR:
+		xs, xt, ys, yt := f.operands(v, want, c)
+		if !xt.eq(yt) || !(xt.k == "byte" || xt.k == "uint64") {
+			p.die(v, "%s on %v, %v (only bytes / uint64)", v.Op, xt, yt)
+		}
+		return parenImp(xs) + map[token.Token]string{token.AND: " &&& ", token.OR: " ||| "}[v.Op] + parenImp(ys), xt
 	case token.SHR:
 		xs, xt := f.expr(v.X, tyInt, c)
+		if xt.k == "byte" || xt.k == "uint64" {
+			// x >> n with a signed count n (a negative count panics in Go: not modelled); the value is computed on the naturals
+			ns, nt := f.expr(v.Y, tyInt, c)
+			if nt.k != "int" {
+				p.die(v, ">> count of type %v", nt)
+			}
+			return map[string]string{"byte": "shrByte ", "uint64": "shr64 "}[xt.k] + parenImp(xs) + " " + parenImp(ns), xt
+		}
 		n := litInt(v.Y)
 		if xt.k != "int" || n == nil {
 			p.die(v, ">> form (only int >> literal: arithmetic shift = floor division by 2^n)")
@@ -554,6 +582,9 @@ func (f *impFn) binary(v *ast.BinaryExpr, want *ity, c *ictx) (string, *ity) {
 			case token.REM:
 				return parenImp(xs) + " % " + parenImp(ys), tyU64
 			}
+		}
+		if xt.k == "byte" && yt.k == "byte" && (v.Op == token.SUB || v.Op == token.ADD) { // UInt8 arithmetic wraps, as in Go
+			return parenImp(xs) + " " + v.Op.String() + " " + parenImp(ys), tyByte
 		}
 		if xt.k != "int" || yt.k != "int" {
 			p.die(v, "%s on %v, %v", v.Op, xt, yt)
@@ -653,6 +684,10 @@ func (f *impFn) call(v *ast.CallExpr, want *ity, c *ictx) (string, *ity) {
 					return "bigSign " + xs, tyInt
 				case se.Sel.Name == "BitLen" && len(v.Args) == 0:
 					return "bigBitLen " + xs, tyInt
+				case se.Sel.Name == "Bytes" && len(v.Args) == 0 && p.tg.grp != "":
+					return "bigBytes " + xs, tyBytes // big-endian bytes of |x|, no leading zero ([] for 0)
+				case se.Sel.Name == "Bits" && len(v.Args) == 0 && p.tg.grp != "":
+					return "bigWords " + xs, &ity{k: "slice", elem: tyU64} // little-endian 64-bit words of |x|, normalised (64-bit platform)
 				case se.Sel.Name == "Bit" && len(v.Args) == 1:
 					is, it := f.expr(v.Args[0], tyInt, c)
 					if it.k != "int" {
@@ -706,11 +741,11 @@ func (f *impFn) call(v *ast.CallExpr, want *ity, c *ictx) (string, *ity) {
 		return out, rt
 	}
 	if se, ok := v.Fun.(*ast.SelectorExpr); ok && f.recv != "" && !f.evRecv && exprText(se.X) == f.recv {
-		if m := p.methods[se.Sel.Name]; m != nil {
+		if m := p.recvMeths[se.Sel.Name]; m != nil {
 			if m.mutates || len(m.results) != 1 {
 				p.die(v, "call of the method %s in expression position (only methods that leave the receiver unchanged and have one result)", se.Sel.Name)
 			}
-			return f.methodCall(v, se.Sel.Name, m, c), m.results[0]
+			return f.recvMethodCall(v, se.Sel.Name, m, c), m.results[0]
 		}
 	}
 	if id, ok := v.Fun.(*ast.Ident); ok && f.lookup(id.Name) == nil && p.translated[id.Name] != nil {
@@ -805,6 +840,22 @@ func (f *impFn) call(v *ast.CallExpr, want *ity, c *ictx) (string, *ity) {
 				p.die(v, "make length")
 			}
 			return "makeBytes " + parenImp(ns), t
+		}
+		if t.k == "slice" && (len(v.Args) == 2 || len(v.Args) == 3) && p.tg.methodCalls {
+			// make([]T, n, cap): n zero values (the capacity has no meaning for a slice VALUE; it is translated for its guards only)
+			ns, nt := f.expr(v.Args[1], tyInt, c)
+			if nt.k != "int" {
+				p.die(v, "make length")
+			}
+			if len(v.Args) == 3 {
+				if _, ct := f.expr(v.Args[2], tyInt, c); ct.k != "int" {
+					p.die(v, "make capacity")
+				}
+			}
+			if t.eq(tyBytes) {
+				return "makeBytes " + parenImp(ns), t
+			}
+			return "(List.replicate " + parenImp(ns) + ".toNat " + p.zero(t.elem) + " : " + p.lty(t, true) + ")", t
 		}
 		p.die(v, "make(%v, …)", t)
 	case "append":
